@@ -57,6 +57,8 @@ type dtState struct {
 	rops            []string // ids of remote operations reported, in order
 	nLocal          int
 	nLocalSinceOpen int
+	// handlers the application did not register (what they would have reported is not judged)
+	noState, noRemote, noErr bool
 }
 
 type actor struct {
